@@ -1,6 +1,7 @@
 package checks
 
 import (
+	"context"
 	"fmt"
 	"io"
 	"net"
@@ -414,7 +415,26 @@ func runC19(c *core.Case) {
 			}
 			judge(f, method, pc, path, cc, ck, ckT, o.res)
 		} else {
+			// now and then the replica holds the tracked database's halt lock while
+			// the request arrives (litefs run -with-halt-lock-on): it may write to
+			// the database itself but the proxy's rules are about the node's role
+			if f.name == "replica" && i%4 == 1 {
+				hctx, cancel := context.WithTimeout(context.Background(), 10*time.Second)
+				hl, herr := R.Store.DB("db").AcquireRemoteHaltLock(hctx, int64(700000+i))
+				cancel()
+				if herr == nil && hl != nil {
+					c.Count("requests_while_replica_holds_halt_lock", 1)
+					defer func(id int64) {
+						if db := R.Store.DB("db"); db != nil && db.HasRemoteHaltLock() {
+							_ = db.ReleaseRemoteHaltLock(context.Background(), id)
+						}
+					}(hl.ID)
+				}
+			}
 			res, _, err := do(f, method, path, ck)
+			if db := R.Store.DB("db"); db != nil && db.HasRemoteHaltLock() {
+				_ = db.ReleaseRemoteHaltLock(context.Background(), int64(700000+i))
+			}
 			if err != nil {
 				c.Violate("C19/proxy-no-response", fmt.Sprintf("%s %s on %s: %v", method, path, f.name, err), nil)
 				return
